@@ -155,6 +155,9 @@ class Interp:
                 env = self.bind_args(f.node, args, kwargs)
                 self.frame = Frame(env, f.closure, saved.clsname)
                 return self.eval(f.node.body)
+            if _is_genfn(f.node):
+                self.st.notes.append('generator function %s called: body not executed, opaque generator object returned' % f.name)
+                return VCons('generator', [], attrs={'__gen__': VStr(f.name)})
             self.frame = Frame({}, f.closure, saved.clsname)
             env = self.bind_args(f.node, args, kwargs)
             self.frame = Frame(env, f.closure, saved.clsname)
@@ -258,6 +261,13 @@ class Interp:
                     if not self.branch(z3.Select(c.dom, k), 'del_has'):
                         raise_(self, 'KeyError', key)
                     self.store_back(t.value, VDict(c.kk, c.vk, z3.Store(c.dom, k, False), c.vals, c.loc, c.default), c)
+                    continue
+                if isinstance(c, VCDict):
+                    key = self.eval(t.slice)
+                    ks = key.t.as_string()
+                    if ks not in c.d:
+                        raise_(self, 'KeyError', key)
+                    del c.d[ks]
                     continue
                 if isinstance(c, VStr) and isinstance(t.slice, ast.Slice):
                     lo = self.eval_opt_int(t.slice.lower)
@@ -1006,6 +1016,13 @@ class Interp:
             return {'Lt': x < y, 'LtE': x <= y, 'Gt': x > y, 'GtE': x >= y}[on]
         if isinstance(a, VNone) or isinstance(b, VNone):
             raise_(self, 'TypeError', VStr('ordering with None'))
+        if isinstance(a, VTuple) and isinstance(b, VTuple) and len(a.items) == len(b.items) and a.items:
+            # lexicographic
+            strict = {'Lt': ast.Lt(), 'LtE': ast.Lt(), 'Gt': ast.Gt(), 'GtE': ast.Gt()}[on]
+            res = z3.BoolVal(on in ('LtE', 'GtE'))
+            for x, y in reversed(list(zip(a.items, b.items))):
+                res = z3.Or(self.compare(strict, x, y), z3.And(eq(self, x, y), res))
+            return res
         raise Unsupported('compare %s on %r, %r' % (on, a, b))
 
     def e_Subscript(self, n):
@@ -1185,7 +1202,12 @@ class Interp:
         if summ is None and isinstance(n.func, ast.Attribute):
             summ = self.spec.calls.get('*.' + n.func.attr)
         if summ is not None:
-            recv = self.eval(n.func.value) if isinstance(n.func, ast.Attribute) else None
+            recv = None
+            if isinstance(n.func, ast.Attribute):
+                try:
+                    recv = self.eval(n.func.value)
+                except Unsupported:
+                    recv = None
             args, kwargs = self.eval_args(n)
             key = txt if txt in self.spec.calls else '*.' + n.func.attr
             self.st.ghost.setdefault('__calls__', []).append(key)
@@ -1364,6 +1386,11 @@ class Interp:
         if isinstance(v, (VFunc, VClass)):
             return z3.BoolVal(name in ('Callable',) if isinstance(v, VFunc) else name == 'type')
         raise Unsupported('isinstance(%r, %s)' % (v, name))
+
+
+def _is_genfn(node):
+    from .contract import is_generator_function
+    return is_generator_function(node)
 
 
 class _SymbolicIter(Exception):
